@@ -3,8 +3,10 @@ import ScionVerif.Model.PathSet
 /-!
 Line-protocol driver for the path-manager model (C05/C06/C07).
 
-Tokens: a path is `fp:expiry:src:dst:ifaces:dpFirst:dpLast:allowed` (`n` = none; ifaces = `n`, `e` (empty)
-or `ia.id,ia.id,…`; `allowed` = what the real policy predicate says about this path); path lists are
+Tokens: a path is `fp:expiry:src:dst:ifaces:dpFirst:dpLast:verdicts` (`n` = none; ifaces = `n`, `e` (empty)
+or `ia.id,ia.id,…`; `verdicts` = one `0`/`1` per attached policy in attachment order - what that single
+policy says about this path, evaluated by the harness policy by policy - or `-` when no policy is attached;
+the model's strategy predicate is `allowedAll` of these policies); path lists are
 `;`-separated (`-` = empty); score maps are `fp=score,…` (`-` = empty, score = signed integer in units
 of 2^-149); fingerprint lists are `fp,fp,…`.
 
@@ -23,7 +25,10 @@ open ScionVerif.PathMgr ScionVerif.Generated.PathMgr Driver
 
 structure DSt where
   env : Env := { cfg := defaultCfg, src := 0, dst := 0, allowed := fun _ => false }
-  allowedTab : List Path := []
+  /-- per-policy verdicts of every path seen so far -/
+  verdictTab : List (Path × List Bool) := []
+  /-- number of attached policies (width of the verdict tokens) -/
+  nPol : Nat := 0
   st : St := { nextRefetch := 0, nextIdle := 0 }
   ready : Bool := false
 
@@ -47,19 +52,22 @@ def parseIfaces (s : String) : Option (Option (List Iface)) :=
   else if s == "e" then some (some [])
   else (allSome ((s.splitOn ",").map parseIface)).map some
 
-/-- path token → (path, allowed flag) -/
-def parsePath (s : String) : Option (Path × Bool) :=
+def parseVerdicts (s : String) : Option (List Bool) :=
+  if s == "-" then some []
+  else if s.isEmpty then none
+  else allSome (s.toList.map (fun c => if c == '1' then some true else if c == '0' then some false else none))
+
+/-- path token → (path, per-policy verdicts) -/
+def parsePath (s : String) : Option (Path × List Bool) :=
   match s.splitOn ":" with
   | [fp, ex, src, dst, ifs, f, l, a] =>
     match fp.toNat?, optNat ex, src.toNat?, dst.toNat?, parseIfaces ifs, optNat f, optNat l with
     | some fp, some ex, some src, some dst, some ifs, some f, some l =>
-      if a == "1" then some (⟨fp, ex, src, dst, ifs, f, l⟩, true)
-      else if a == "0" then some (⟨fp, ex, src, dst, ifs, f, l⟩, false)
-      else none
+      (parseVerdicts a).map (fun v => (⟨fp, ex, src, dst, ifs, f, l⟩, v))
     | _, _, _, _, _, _, _ => none
   | _ => none
 
-def parsePaths (s : String) : Option (List (Path × Bool)) :=
+def parsePaths (s : String) : Option (List (Path × List Bool)) :=
   if s == "-" then some [] else allSome ((s.splitOn ";").map parsePath)
 
 def parseInt (s : String) : Option Int :=
@@ -142,14 +150,30 @@ def hopsStr : Option (List Hop) → String
   | none => "none"
   | some hs => if hs.isEmpty then "-" else ",".intercalate (hs.map (fun h => s!"{h.ia}.{h.ingress}.{h.egress}"))
 
-def withAllowed (d : DSt) (ps : List (Path × Bool)) : DSt :=
-  let tab := ps.foldl (fun t pb => if pb.2 && !t.contains pb.1 then pb.1 :: t else t) d.allowedTab
-  { d with allowedTab := tab, env := { d.env with allowed := fun p => tab.contains p } }
+/-- the `i`-th attached policy as a predicate: its recorded verdict (a path never seen is rejected) -/
+def policyOf (tab : List (Path × List Bool)) (i : Nat) : Path → Bool :=
+  fun p => match tab.find? (·.1 == p) with
+    | some e => e.2.getD i false
+    | none => false
 
-def doMaintain (d : DSt) (now : Nat) (resp : Resp) (flags : List (Path × Bool)) (sc0 sc1 : List (Nat × Int))
+/-- records the verdicts; the strategy predicate is the conjunction of the attached policies.
+    `none`: the tokens of one history do not all carry the same number of verdicts -/
+def withAllowed (d : DSt) (ps : List (Path × List Bool)) : Option DSt :=
+  let n := match d.verdictTab, ps with
+    | e :: _, _ => e.2.length
+    | [], pb :: _ => pb.2.length
+    | [], [] => d.nPol
+  if ps.any (fun pb => pb.2.length != n) then none else
+  let tab := ps.foldl (fun t pb => if t.any (·.1 == pb.1) then t else pb :: t) d.verdictTab
+  some { d with verdictTab := tab, nPol := n,
+                env := { d.env with allowed := allowedAll ((List.range n).map (policyOf tab)) } }
+
+def doMaintain (d : DSt) (now : Nat) (resp : Resp) (flags : List (Path × List Bool)) (sc0 sc1 : List (Nat × Int))
     (ord : List Nat) (backoff : Nat) : DSt × String :=
   let cachedFps := d.st.cached.map (·.fp)
-  let d := withAllowed d flags
+  match withAllowed d flags with
+  | none => (d, "bad-op verdict-width")
+  | some d =>
   -- scores are needed for every cached entry and for every fetched path that can become a candidate
   let cand := match fetchFiltered d.env now resp with
     | .ok f => f.map (·.fp)
@@ -171,7 +195,7 @@ def dstep (d : DSt) : List String → DSt × String
                          issueBroadcastSize := ibs, dedupWindow := dw, swapThreshold := sw,
                          backoffMax := bm }
       let env : Env := { cfg := cfg, src := src, dst := dst, allowed := fun _ => false }
-      ({ env := env, allowedTab := [], st := init env t0, ready := true }, s!"ok valid={b01 (validate cfg)}")
+      ({ env := env, verdictTab := [], nPol := 0, st := init env t0, ready := true }, s!"ok valid={b01 (validate cfg)}")
     | _, _, _, _, _, _, _, _, _, _, _, _, _ => (d, "bad-op")
   | ["maintain", now, "ok", ps, sc0, sc1, ord, bo] =>
     if !d.ready then (d, "bad-op not-init") else
